@@ -4,7 +4,7 @@ from vlib import common, smt, chx
 
 FUNCS = ['DigitalRFMirrorHandler.mirror_to_dest', 'DigitalRFMirror.__init__ (handler set per method, LinkWithFallback)', 'DigitalRFMirrorHandler._get_dest_path']
 TITLES = {
-    '_mirror_one': 'copy / move / link of one file under 1..3 (duplicated, late) events with arbitrary pre-existing destination and stale tmp file: destination ends with the source content, final name written only by rename from tmp., an intact copy exists in source or destination at every moment, vanished source changes nothing',
+    '_mirror_one': 'copy / move / link of one file under 1..3 (duplicated, late) events, optionally after a late event for a vanished file, with arbitrary pre-existing destination and stale tmp file (possibly a hard link of the source): destination ends with the source content, final name written only by rename from tmp., an intact copy exists in source or destination at every moment, vanished source changes nothing',
     '_mirror_wiring': 'handler set per method: metadata and properties copied (linked) by the first handler, RF files moved by a separate handler only in move mode, the count-1 metadata ringbuffer only in move mode and dispatched after the copying handler',
     '_mirror_witness': 'reachability: a staged rename is reachable',
 }
@@ -20,13 +20,15 @@ os.makedirs(s); os.makedirs(d)
 content = lambda i: 'content-%%d' %% i
 if kw.get('src_there', True): open(s + '/rf@1.000.h5', 'w').write(content(kw.get('src_id', 0)))
 if kw.get('dst_there'): open(d + '/rf@1.000.h5', 'w').write(content(kw.get('dst_id', 0)))
-if kw.get('tmp_there'): open(d + '/tmp.rf@1.000.h5', 'w').write(content(kw.get('tmp_id', 0)))
+if kw.get('tmp_is_link'): os.link(s + '/rf@1.000.h5', d + '/tmp.rf@1.000.h5')
+elif kw.get('tmp_there'): open(d + '/tmp.rf@1.000.h5', 'w').write(content(kw.get('tmp_id', 0)))
 class NoObs:
     def __init__(self, *a, **k): pass
     def schedule(self, *a, **k): pass
 MIR.watchdog_drf.DirWatcher = NoObs
 m = MIR.DigitalRFMirror(top + '/s', top + '/d', method=method)
 h = m.event_handlers[1] if method == 'move' else m.event_handlers[0]
+if kw.get('late_first'): h.mirror_to_dest(s + '/rf@0.000.h5')
 for _ in range(kw.get('events', 1)): h.mirror_to_dest(s + '/rf@1.000.h5')
 bad = 0
 got = open(d + '/rf@1.000.h5').read() if os.path.exists(d + '/rf@1.000.h5') else None
@@ -35,6 +37,9 @@ if kw.get('src_there', True):
 else:
     want = content(kw.get('dst_id', 0)) if kw.get('dst_there') else None
     if got != want: print('destination changed although the source vanished:', got); bad = 1
+    tgot = open(d + '/tmp.rf@1.000.h5').read() if os.path.exists(d + '/tmp.rf@1.000.h5') else None
+    twant = content(kw.get('tmp_id', 0)) if kw.get('tmp_there') else None
+    if tgot != twant: print('the staged tmp file (possibly the only copy after an interrupted move) was touched although the source vanished:', tgot); bad = 1
 shutil.rmtree(top)
 sys.exit(1 if bad else 0)
 '''
